@@ -109,6 +109,25 @@ def gen_cases(chk, n_trees, modes=("forked", "inproc"), reporters=L.REPORTERS, *
     return cases
 
 
+def corner_cases(reporters=("text", "cute", "xml"), modes=("forked",), which=("skip-then-die", "die-after-completion", "inproc-exit0")):
+    """fixed scenarios for the corners listed in known_findings.txt (run first, every time)"""
+    from layerc import Test, Suite
+    cases = []
+    if "skip-then-die" in which:
+        for rep in reporters:
+            for m in modes:
+                root = Suite(0, children=[Test(0, body=[("c", 1)]), Test(1, body=[("skip",), ("die", "sig", 11)]), Test(2, body=[("c", 1)])])
+                cases.append((root, rep, m))
+    if "die-after-completion" in which:
+        for rep in reporters:
+            root = Suite(0, children=[Test(0, body=[("c", 1)], kill=("at_stop", 0, ("sig", 11))), Test(1, body=[("c", 1)])])
+            cases.append((root, rep, "forked"))
+    if "inproc-exit0" in which:
+        root = Suite(0, children=[Test(0, body=[("c", 0), ("die", "exit", 0)]), Test(1, body=[("c", 1)])])
+        cases.append((root, "text", "inproc"))
+    return cases
+
+
 def account(chk, root, rep, mode):
     chk.case((L.node_sexp(root), rep, str(mode)), nontrivial(root))
     chk.count("reporter:" + rep)
@@ -147,7 +166,7 @@ def correspondence(chk, cases, runs, mrs):
 def check_C01(chk):
     drv = setup(chk, ["Properties_C01.v"])
     n = 12 if chk.tier == "quick" else 250
-    cases = gen_cases(chk, n)
+    cases = corner_cases() + gen_cases(chk, n)
     # single-test mode on a few trees
     for i in range(4 if chk.tier == "quick" else 60):
         root = gen_c.gen_tree(chk.rng, max_depth=2)
@@ -199,7 +218,7 @@ def runner_cases_C01(chk):
 def check_C03(chk):
     drv = setup(chk, ["Properties_C03.v"])
     n = 12 if chk.tier == "quick" else 250
-    cases = gen_cases(chk, n, modes=("forked",))
+    cases = corner_cases(which=("skip-then-die", "die-after-completion")) + gen_cases(chk, n, modes=("forked",))
     cases += gen_cases(chk, max(3, n // 4), modes=("inproc",), kinds=[("pass", 4), ("fail", 3), ("empty", 1), ("xensure", 1), ("skiptest", 2), ("mixed", 2)])
     runs, mrs = run_cases(drv, cases)
     correspondence(chk, cases, runs, mrs)
@@ -207,7 +226,13 @@ def check_C03(chk):
         if run.timeout or mr.kind == "crash":
             continue
         cs = corners(root, mode)
-        sigp = (sorted(cs)[0] + ":") if cs else ""
+        sigp = ""
+        if cs:
+            # every symptom of a listed corner in a scenario that contains it is that finding
+            class _K(str):
+                def __add__(self, other):
+                    return str(self)
+            sigp = _K(sorted(cs)[0])
         rp = lambda extra=None: replay_of(root, rep, mode, {"stdout": run.stdout[-2500:], **(extra or {})})
         own = mr.own
         # per-test credits
@@ -282,6 +307,8 @@ def check_C17(chk):
             if run.timeout:
                 chk.violation("nontermination-" + rep, "run did not terminate", replay_of(root, rep, mode))
                 continue
+            if mr.kind == "crash":
+                continue        # the runner's own process ended (in-process death): nothing to compare
             sd = L.log_sdone(run)
             obs.append((rep, run.exit != 0, sd[-1][3] if sd else None, L.log_tdone(run),
                         cmp_c.reported_counts(rep, run), root, mode, run))
